@@ -1136,6 +1136,8 @@ _GATE_NAME_TO_QASM_NAME = {
     "T": "t",
     "CRZ": "crz",
     "CNOT": "cx",
+    "CSIGN": "cz",
+    "CZ": "cz",
     "TOFFOLI": "ccx",
 }
 
